@@ -406,8 +406,16 @@ def dev_path_rule(ctx, ck):
             pushes = [e for e in p.events if e.kind == "call" and method_name(e.a) == "push" and "PathBuf" in e.a and mir.strip(e.b[0]) == pb]
             key = [e for e in p.events if e.kind == "guard" and isinstance(e.a, tuple) and e.a[0] == "call" and method_name(e.a[1]) == "starts_with" and e.b is True
                    and e.a[2][1] == T("const", T("str", "DEVNAME="))]
+            # (the uevent file that is read is the one of an `event*` child of the device's sysfs directory: the evdev node,
+            # not mouseN / jsN)
+            outer = []
+            for hh in b.loops():
+                if hh != h and h in b.loops()[hh]:
+                    outer += [q for q in mir.walk_loop_only(b, hh) if any(e.kind == "loop" and e.a == h for e in q.events)]
+            ev_child = bool(outer) and all(any(e.kind == "guard" and isinstance(e.a, tuple) and e.a[0] == "call" and method_name(e.a[1]) == "starts_with" and e.b is True
+                                               and e.a[2][1] == T("const", T("str", "event")) for e in q.events) for q in outer)
             ok = (isinstance(pb, tuple) and pb[0] == "call" and method_name(pb[1]) == "new" and len(pushes) == 2 and pushes[0].b[1] == T("const", T("str", "/dev"))
-                  and len(key) == 1 and mentions(pushes[1].b[1], mir.strip(key[0].a[2][0])))
+                  and len(key) == 1 and mentions(pushes[1].b[1], mir.strip(key[0].a[2][0])) and ev_child)
             ck.ob("C16-R3", fn, "device-node-is-/dev/<DEVNAME-of-the-device's-uevent>", ok, site=pushes[0].span if pushes else None)
     ck.floor("C16-R3", "dev-path-return-sites", n, 1)
 
